@@ -255,11 +255,16 @@ Proof.
     rewrite E. eauto.
 Qed.
 
+(* routed requests: the path is not one a plain handler is registered on (Handle / HandleWithFilter have no
+   recovery by construction) *)
+Definition routed_request (cfg : dcfg) (req : request) : Prop := assoc (rq_path req) (d_plain cfg) = None.
+
 Theorem serve_no_escape cfg en req s :
+  routed_request cfg req ->
   d_recover cfg = true -> panic_free (d_recover_script cfg) = true ->
   exists s', serve O cfg en req s = Done s'.
 Proof.
-  intros Hr Hp. unfold serve. destruct en; [apply dispatch_no_escape; assumption|].
+  intros Hrt Hr Hp. unfold serve, mux_target. rewrite Hrt. destruct en; [apply dispatch_no_escape; assumption|].
   destruct (negb (d_encoding cfg)); [apply dispatch_no_escape; assumption|].
   match goal with |- context [dispatch O cfg req ?a ?x] => destruct (dispatch_no_escape cfg req a x Hr Hp) as (s2 & E) end.
   rewrite E. eauto.
